@@ -84,7 +84,7 @@ def main(tier):
         "evaluations": cases,
         "distinct_nontrivial": max([v for k, v in tot.items() if k.startswith("distinct:")] or [0]),
         "by_build": tot,
-        "rule": "nr_exp 1..5(6) x ntheta_exp {-1,2..7} x anisotropic_factor 0..nr_exp+1 x divideBy2 0..1(2) x (R0,Rmax) in "
+        "rule": "nr_exp 1..5(6) x ntheta_exp {-1,2,3,6} (thorough {-1,2..7}) x anisotropic_factor 0..nr_exp+1 x divideBy2 0..1(2) x (R0,Rmax) in "
                 "{(1e-5,1.3),(0.1,1),(1,2)} x refinement radius {0, R0/2, R0, R0+eps, 7(11) interior fractions, Rmax-eps, Rmax, "
                 "1.5 Rmax}; setup() level count for level caps {-1,2,3}; write/load round trip; file faults (missing, empty, one "
                 "value, truncated, non-numeric / negative / duplicate / nan token at each of 9 positions); each combination in a "
